@@ -345,6 +345,33 @@ def gp_evaluating(src, a, rel, cls):
             f"  mkeflow {g} {ACQS[acq]} {'true' if dec else 'false'} true.\n")
 
 
+MODELING_WITH_SCALE = """
+self.ATTR = self.COMPUTE()
+M_A = M_set
+self.design_space.update(self.model, self.ATTR, list(M_A))
+"""
+MODELING_PLAIN = """
+M_A = M_set
+self.design_space.update(self.model, self.beta, list(M_A))
+"""
+
+
+def gp_modeling(src, a, rel, cls):
+    """modeling() of the GP algorithms: the designs whose regions are rebuilt this round (with the freshly computed scale)"""
+    from py2coq import match_stmts
+    where = f"{rel}:{cls}.modeling"
+    body = clean_body(src.func(rel, f"{cls}.modeling"))
+    if a == "vogp_ad":
+        tpl = MODELING_PLAIN
+    else:
+        attr, comp = {"vogp": ("beta", "compute_beta"), "epal": ("beta", "compute_beta"), "paveba_gp": ("alpha_t", "compute_alpha"),
+                      "paveba_partial_gp": ("alpha_t", "compute_alpha")}[a]
+        tpl = MODELING_WITH_SCALE.replace("ATTR", attr).replace("COMPUTE", comp)
+    b = match_stmts(tpl, body, where)
+    g = M(where, a).setexpr(b["M_set"])
+    return f"(* {where} *)\nDefinition {a}_modeled (S P U : list nat) : list nat := {g}.\n"
+
+
 SECTION_HDR = """(* ---------------- {a} ---------------- *)
 """
 
@@ -365,3 +392,6 @@ def run(src, out, hdr):
         rel, cls, _ = ALGOS[a]
         out.attempt(f, f"{a}.evaluating", lambda a=a, rel=rel, cls=cls: gp_evaluating(src, a, rel, cls))
     out.attempt(f, "vogp_ad.gated_covering", lambda: vogp_ad_gated(src))
+    for a in ("paveba_gp", "paveba_partial_gp", "vogp", "epal", "vogp_ad"):
+        rel, cls, _ = ALGOS[a]
+        out.attempt(f, f"{a}.modeling", lambda a=a, rel=rel, cls=cls: gp_modeling(src, a, rel, cls))
